@@ -177,6 +177,72 @@ func c09CheckFile(c *fw.Ctx, label string, d *decorator.Decorator, af *ast.File,
 	return remote, paths
 }
 
+// c09Fragments decorates parts of a file on their own (a declaration, a statement, an expression,
+// a qualified identifier by itself) with a fresh decorator: every identifier gets the path it got
+// when the whole file was decorated.
+func c09Fragments(c *fw.Ctx, label string, fset *token.FileSet, pkgPath string, af *ast.File, info *types.Info, whole map[*ast.Ident]string, src string) {
+	var nodes []ast.Node
+	ast.Inspect(af, func(n ast.Node) bool {
+		switch v := n.(type) {
+		case *ast.SelectorExpr, *ast.CallExpr, *ast.FuncDecl, *ast.GenDecl, *ast.CompositeLit, *ast.FieldList, *ast.IndexExpr, *ast.IndexListExpr, *ast.StarExpr:
+			nodes = append(nodes, n)
+		case *ast.BlockStmt:
+			for _, st := range v.List {
+				nodes = append(nodes, st)
+			}
+		case *ast.Field:
+			// (a bare identifier as the root has no parent to tell the resolver what it is: the
+			// decorator refuses it by design)
+			if _, isIdent := v.Type.(*ast.Ident); v.Type != nil && !isIdent {
+				nodes = append(nodes, v.Type)
+			}
+		}
+		return true
+	})
+	if len(nodes) > 60 {
+		nodes = nodes[:60]
+	}
+	for _, n := range nodes {
+		d := decorator.NewDecoratorWithImports(fset, pkgPath, gotypes.New(info.Uses))
+		var err error
+		var out dst.Node
+		if sig, detail := fw.Try(func() { out, err = d.DecorateNode(n) }); sig != "" {
+			c.Violate("decorate-panic", sig, fmt.Sprintf("%s: DecorateNode(%T): %s", label, n, detail), src)
+			return
+		}
+		if err != nil || refl.IsNil(out) {
+			c.Violate("decorate-error", "decorate-error:fragment", fmt.Sprintf("%s: DecorateNode(%T): %v", label, n, err), src)
+			return
+		}
+		c.Count("fragments_decorated", 1)
+		c.Observe("fragment_types", refl.TypeName(n))
+		bad := ""
+		ast.Inspect(n, func(x ast.Node) bool {
+			id, ok := x.(*ast.Ident)
+			if !ok || bad != "" {
+				return true
+			}
+			want, known := whole[id]
+			if !known {
+				return true
+			}
+			di, ok := d.Dst.Nodes[id].(*dst.Ident)
+			if !ok {
+				bad = fmt.Sprintf("identifier %q at %v maps to %T", id.Name, fset.Position(id.Pos()), d.Dst.Nodes[id])
+				return true
+			}
+			if di.Path != want {
+				bad = fmt.Sprintf("identifier %q at %v has Path %q, in the whole file it has %q", id.Name, fset.Position(id.Pos()), di.Path, want)
+			}
+			return true
+		})
+		if bad != "" {
+			c.Violate("fragment-path-differs", "fragment-path-differs:"+refl.TypeName(n), fmt.Sprintf("%s: %s decorated on its own: %s", label, refl.TypeName(n), bad), src)
+			return
+		}
+	}
+}
+
 func runC09(c *fw.Ctx) {
 	// (a) std packages
 	dirs := c08Dirs(c)
@@ -259,6 +325,7 @@ func runC09(c *fw.Ctx) {
 						c.Nontrivial(label)
 					}
 					if !resolveLocal {
+						c09Fragments(c, label, p.Fset, pkgPath, af, info, tpaths, p.Files[k].Src)
 						c09Goast(c, label, p.Fset, af, info, tpaths, importNamesOf(af, info), p.Files[k].Src)
 						// the decorator that Load builds for a loaded package: go/packages gives the test
 						// variant of a package an ID that differs from its import path
